@@ -183,4 +183,9 @@ class Program:
 
 def load_program(only=None, defines=(), tag="default"):
     fdir, units = extract(defines, tag)
-    return Program(fdir, units, only)
+    prog = Program(fdir, units, only)
+    # main's locals are addressed by role, not by the name they happen to have (see roles.py)
+    if "main" in prog.by_qname:
+        from . import roles
+        roles.canonicalise_main(prog)
+    return prog
